@@ -3,7 +3,7 @@ B: exhaustive histories (length <= 3 quick / 4 thorough) over {exec, test, lastI
 (including ones that match empty) x subjects against an explicit state machine (ECMA-262 22.2.7.2 RegExpBuiltinExec)
 whose matcher is Python's `re` on patterns where both dialects coincide; String match/replace/replaceAll/split/search
 against the ECMAScript algorithms (22.1.3 / 22.2.6) run over the same matcher, replacement templates by GetSubstitution."""
-import itertools, random, re as _re, json
+import itertools, random, re as _re, json, math
 from pyvc import groups
 from pyvc.groups import ob
 
@@ -273,3 +273,280 @@ def c20_string_methods(tier="quick", seed=0):
             fails.setdefault(kind, []).append((src, got, want))
     return [ob(f"C20.bounded.string-methods.{k}", k not in fails, "B", f"{n} cases" if k not in fails else f"{len(fails[k])}/{n} differ: {fails[k][0][0][:120]} -> {fails[k][0][1]} expected {fails[k][0][2]}",
                witness=(fails[k][0][0] if k in fails else None), confirmed=True if k in fails else None, domain=n, key=f"C20.bounded.string-methods.{k}") for k, n in sorted(counts.items())]
+
+
+# =======================================================================================================================
+# K1: the lastIndex protocol of the real RegExp objects against RegExpBuiltinExec (ECMA-262 22.2.7.2), with the pattern
+# matcher itself abstracted:  match_end(vm, s, i)  is the end of the match the compiled pattern finds when tried at
+# position i of s, or -1  (an uninterpreted function: the contracts hold for every pattern).
+# =======================================================================================================================
+from pyvc.api import *          # noqa: E402
+from microjs.values import UNDEFINED, NULL      # noqa: E402
+from microjs.regex.vm import MatchResult        # noqa: E402
+import specs.es_core as CORE    # noqa: E402
+
+
+@abstract("match_end")
+def match_end(vm, string, pos) -> "int":
+    """native stand-in (never used for replays of these contracts: the real matcher runs there)"""
+    r = vm._execute(string, pos, False)
+    return -1 if r is None else r.index + len(r[0] or "")
+
+
+@recursive
+def spec_first(vm, string, pos) -> "int":
+    """the first position >= pos at which the pattern matches; -1 if there is none up to len(string)"""
+    if pos > len(string):
+        return -1
+    if match_end(vm, string, pos) >= 0:
+        return pos
+    return spec_first(vm, string, pos + 1)
+
+
+def spec_first__ensures(vm, string, pos, result):
+    """lemma (induction on len(string) + 1 - pos): a found position lies in [pos, len(string)] and the pattern matches there"""
+    return result == -1 or (pos <= result and result <= len(string) and match_end(vm, string, result) >= 0)
+
+
+@effectful
+def spec_attempt(vm, string, pos, anchored=False):
+    """callee contract of RegexVM._execute / RegexVM.match: None, or a MatchResult whose index is pos and whose group 0
+    is string[pos:match_end]; the other groups are arbitrary (0 to 2 of them here)"""
+    e = match_end(vm, string, pos)
+    if e < 0:
+        return None
+    assume(pos <= e and e <= len(string))
+    n = fresh(Int)
+    assume(0 <= n and n <= 2)
+    groups = [string[pos:e]]
+    if n >= 1:
+        groups.append(fresh(Str) if fresh(Bool) else None)
+    if n >= 2:
+        groups.append(fresh(Str) if fresh(Bool) else None)
+    return MatchResult(groups, pos, string)
+
+
+@effectful
+def spec_search(vm, string, start=0):
+    """callee contract of RegexVM.search (proved below): the attempt at the first matching position"""
+    p = spec_first(vm, string, start)
+    if p < 0:
+        return None
+    return spec_attempt(vm, string, p)
+
+
+def inv_search(self, string, start_pos, pos__next):
+    return pos__next >= start_pos and spec_first(self, string, pos__next) == spec_first(self, string, start_pos)
+
+
+def c_vm_search(vm: Obj("RegexVM"), string: Str, start: IntRange(0, 2 ** 32)):
+    """search() returns the match at the first position >= start where the pattern matches, None if there is none"""
+    first = spec_first(vm, string, start)
+    r = outcome(REAL, vm, string, start)
+    check("never-raises", r[0] == "ret")
+    res = r[1]
+    if first < 0:
+        check("no-match-is-None", res is None)
+    else:
+        check("match-is-found", res is not None)
+        if res is not None:
+            check("match-is-the-first", res.index == first)
+
+
+def _native_vm(name):
+    def make():
+        from microjs.regex.vm import RegexVM
+        return getattr(RegexVM, name)
+    return make
+
+
+register(c_vm_search, id="C20.RegexVM.search", prop="C20", target=method("microjs.regex.vm", "RegexVM.search"), native=None,
+         summaries={"microjs.regex.vm:RegexVM._execute": spec_attempt},
+         invariants={("microjs.regex.vm:RegexVM.search", "range(start_pos, len(string) + 1)"): inv_search})
+
+
+@effectful
+def spec_create_vm(rx):
+    return ghost_get("vm", None)
+
+
+def c_internal_exec(rx: Obj("RegExp"), vm: Obj("RegexVM"), string: Str, last: IntRange(0, 2 ** 53), g: Bool, y: Bool):
+    """RegExp.exec of the regex package = RegExpBuiltinExec steps 4-15 for a non-unicode pattern and an integral lastIndex:
+    start at lastIndex only when global or sticky; beyond the end: fail and reset; sticky tries that one position; a
+    match sets lastIndex to its end, a failure resets it, and without g/y lastIndex is left alone"""
+    rx._unicode = False
+    rx._global = g
+    rx._sticky = y
+    rx.lastIndex = last
+    ghost_set("vm", vm)
+    start = last if (g or y) else 0
+    r = outcome(REAL, rx, string)
+    check("never-raises", r[0] == "ret")
+    res = r[1]
+    if start > len(string):
+        check("beyond-end.fails", res is None)
+        check("beyond-end.resets", rx.lastIndex == 0)
+    elif y:
+        e = match_end(vm, string, start)
+        if e < 0:
+            check("sticky.fails-without-scanning", res is None)
+            check("sticky.failure-resets", rx.lastIndex == 0)
+        else:
+            check("sticky.matches-at-lastIndex", res is not None and res.index == start)
+            check("sticky.lastIndex-is-match-end", rx.lastIndex == e)
+    else:
+        p = spec_first(vm, string, start)
+        if p < 0:
+            check("search.fails", res is None)
+            check("search.failure-resets-only-global", rx.lastIndex == (0 if g else last))
+        else:
+            check("search.finds-first-match", res is not None and res.index == p)
+            check("search.lastIndex-is-match-end-only-global", rx.lastIndex == (match_end(vm, string, p) if g else last))
+
+
+register(c_internal_exec, id="C20.RegExp.exec", prop="C20", target=method("microjs.regex.regex", "RegExp.exec"), native=None,
+         summaries={"microjs.regex.regex:RegExp._create_vm": spec_create_vm, "microjs.regex.vm:RegexVM.match": spec_attempt,
+                    "microjs.regex.vm:RegexVM.search": spec_search})
+
+
+# ---- JSRegExp.exec / test: ToLength(lastIndex), write-back only for g / y, the result array ---------------------------
+@abstract("pattern_end")
+def pattern_end(rx, string, pos) -> "int":
+    """end of the match of rx's pattern tried at pos, or -1 (the regex package's exec is proved above to follow it)"""
+    vm = rx._create_vm()
+    r = vm._execute(string, pos, False)
+    return -1 if r is None else r.index + len(r[0] or "")
+
+
+@recursive
+def rx_first(rx, string, pos) -> "int":
+    if pos > len(string):
+        return -1
+    if pattern_end(rx, string, pos) >= 0:
+        return pos
+    return rx_first(rx, string, pos + 1)
+
+
+def rx_first__ensures(rx, string, pos, result):
+    return result == -1 or (pos <= result and result <= len(string) and pattern_end(rx, string, result) >= 0)
+
+
+@effectful
+def spec_internal_exec(rx, string):
+    """callee contract of regex.RegExp.exec (C20.RegExp.exec): RegExpBuiltinExec on rx.lastIndex"""
+    g, y = rx._global, rx._sticky
+    start = rx.lastIndex if (g or y) else 0
+    if start > len(string):
+        rx.lastIndex = 0
+        return None
+    p = start if y else rx_first(rx, string, start)
+    e = pattern_end(rx, string, p) if p >= 0 else -1
+    if e < 0:
+        if g or y:
+            rx.lastIndex = 0
+        return None
+    assume(p <= e and e <= len(string))
+    if g or y:
+        rx.lastIndex = e
+    n = fresh(Int)
+    assume(0 <= n and n <= 2)
+    groups = [string[p:e]]
+    if n >= 1:
+        groups.append(fresh(Str) if fresh(Bool) else None)
+    if n >= 2:
+        groups.append(fresh(Str) if fresh(Bool) else None)
+    ghost_set("exec.groups", len(groups))
+    ghost_set("exec.g1", groups[1] if n >= 1 else None)
+    return MatchResult(groups, p, string)
+
+
+@effectful
+def spec_internal_test(rx, string):
+    return spec_internal_exec(rx, string) is not None
+
+
+def _to_length(v):
+    """ToLength of a Number, as the engine's max(0, to_integer(v)) must compute it (ToIntegerOrInfinity with the
+    infinities clamped to +-2**53; the conversion of non-numbers is C06's to_integer contract)"""
+    if v != v:
+        return 0
+    if v == INF:
+        return 9007199254740992
+    if v <= 0:
+        return 0
+    return math.trunc(v)
+
+
+def _expected(rx, string, li, g, y):
+    """(position of the match or -1, its end, lastIndex afterwards or None when it must not be written)"""
+    L = _to_length(li)
+    start = L if (g or y) else 0
+    if start > len(string):
+        return -1, -1, (0 if (g or y) else None)
+    p = start if y else rx_first(rx, string, start)
+    e = pattern_end(rx, string, p) if p >= 0 else -1
+    if e < 0:
+        return -1, -1, (0 if (g or y) else None)
+    return p, e, (e if (g or y) else None)
+
+
+def c_js_exec(self: Obj("JSRegExp"), rx: Obj("RegExp"), string: Str, li: Num):
+    """RegExp.prototype.exec: starts at ToLength(lastIndex) for global/sticky patterns (0 otherwise), writes lastIndex
+    back only for those, returns null or the match array (captures that did not take part are undefined; index, input)"""
+    flags = FLAGS          # bound per registration: "", "g", "y", "gy" (other flags do not take part in the protocol)
+    g, y = "g" in flags, "y" in flags
+    self._internal = rx
+    self._flags = flags
+    rx._global = g
+    rx._sticky = y
+    self._properties["lastIndex"] = li
+    p, e, new_last = _expected(rx, string, li, g, y)
+    r = outcome(REAL, self, string)
+    check("never-raises", r[0] == "ret")
+    if new_last is None:
+        check("lastIndex-untouched-without-g-or-y", same_value(self._properties["lastIndex"], li))
+    else:
+        check("lastIndex-written-back", same_value(self._properties["lastIndex"], new_last))
+    if p < 0:
+        check("no-match-is-null", same_ref(r[1], NULL))
+    else:
+        arr = r[1]
+        check("match-is-an-array", isinstance(arr, JSArray))
+        if isinstance(arr, JSArray):
+            check("match.group0", len(arr._elements) == ghost_get("exec.groups", 0) and arr._elements[0] == string[p:e])
+            check("match.index-and-input", same_value(arr._properties["index"], p) and arr._properties["input"] == string)
+            if ghost_get("exec.groups", 0) >= 2:
+                g1 = ghost_get("exec.g1", None)
+                if g1 is None:
+                    check("match.unmatched-group-is-undefined", same_ref(arr._elements[1], UNDEFINED))
+                else:
+                    check("match.group-text", arr._elements[1] == g1)
+
+
+def c_js_test(self: Obj("JSRegExp"), rx: Obj("RegExp"), string: Str, li: Num):
+    """RegExp.prototype.test is exec() !== null with the same lastIndex protocol"""
+    flags = FLAGS          # bound per registration: "", "g", "y", "gy" (other flags do not take part in the protocol)
+    g, y = "g" in flags, "y" in flags
+    self._internal = rx
+    self._flags = flags
+    rx._global = g
+    rx._sticky = y
+    self._properties["lastIndex"] = li
+    p, e, new_last = _expected(rx, string, li, g, y)
+    r = outcome(REAL, self, string)
+    check("never-raises", r[0] == "ret")
+    check("result-is-whether-exec-matches", r[1] is (p >= 0))
+    if new_last is None:
+        check("lastIndex-untouched-without-g-or-y", same_value(self._properties["lastIndex"], li))
+    else:
+        check("lastIndex-written-back", same_value(self._properties["lastIndex"], new_last))
+
+
+from microjs.values import JSArray      # noqa: E402
+JS_SUMM = {"microjs.regex.regex:RegExp.exec": spec_internal_exec, "microjs.regex.regex:RegExp.test": spec_internal_test,
+           "microjs.values:to_integer": CORE.ToIntegerClamped}
+for _fl in ("", "g", "y", "gy"):
+    register(c_js_exec, id=f"C20.JSRegExp.exec.flags-{_fl or 'none'}", prop="C20", target=method("microjs.values", "JSRegExp.exec"), native=None,
+             summaries=JS_SUMM, bind={"FLAGS": _fl})
+    register(c_js_test, id=f"C20.JSRegExp.test.flags-{_fl or 'none'}", prop="C20", target=method("microjs.values", "JSRegExp.test"), native=None,
+             summaries=JS_SUMM, bind={"FLAGS": _fl})
